@@ -19,7 +19,7 @@ import ast
 import re
 
 from ..cfg import ENTRY, EXIT, header_parts
-from ..flow import reach_rejections, Defs, all_defs_text, conjuncts, guard_facts, iterations, rejections, stores_into
+from ..flow import reach_rejections, Defs, all_defs_text, conjuncts, guard_facts, iterations, rejections, stores_into, Scope
 from ..loader import AnalysisError, FuncInfo, dotted, norm, walk_no_nested
 from ..report import Ctx
 from ..selftest import Mutant
@@ -419,6 +419,28 @@ def rule_order_free(ctx: Ctx) -> None:
     ctx.add("5-order-free", BASE, "", n5 == 0, "no positional use of `.functions` in the evaluation machinery", key="scan")
 
 
+def rule_combinations_name_consumed_outputs(ctx: Ctx) -> None:
+    """Every argument combination that arg_combinations lists is accepted: a producer stands in a combination for the outputs
+    that are CONSUMED on the way to the requested output (the edge attribute `arg`), not for all of its outputs - the unconsumed
+    sibling of a tuple output is a surplus keyword, which run() refuses."""
+    P = ctx.prog
+    ac = P.func(f"{BASE}.Pipeline.arg_combinations")
+    funcs = Scope(ctx, ac, wide=True).funcs
+    whole, consumed = [], []
+    for f_ in funcs:
+        if f_ is ac or f_.is_property or f_.name in ("graph", "output_to_func", "node_mapping"):
+            continue  # the graph BUILDER also touches the edge attribute; this rule is about the enumeration
+        for c in ast.walk(f_.node):
+            if isinstance(c, ast.Call) and dotted(c.func).rsplit(".", 1)[-1] == "at_least_tuple" and c.args and isinstance(c.args[0], ast.Attribute) and c.args[0].attr == "output_name":
+                whole.append((f_, c))
+            if isinstance(c, ast.Subscript) and isinstance(c.slice, ast.Constant) and c.slice.value == "arg" and "edges" in norm(c.value):
+                consumed.append((f_, c))
+    ctx.tri("7-entry", (whole or consumed or [(ac, ac.node)])[0][0], (whole or consumed or [(ac, ac.node)])[0][1], bool(consumed) and not whole, bool(whole) and not consumed,
+            "a producer contributes the names on its consumed edges to a combination",
+            f"`{norm(whole[0][1]) if whole else ''}` names a producer by ALL of its outputs: for `a, b = f(x); c = g(a)` arg_combinations('c') lists ('a', 'b'), which pipeline('c', a=.., b=..) refuses (b is unused), "
+            "and the combination ('a',) that suffices is missing", "how a producer is named in a combination was not recognised", key="combinations-consumed-outputs")
+
+
 def rule_entry(ctx: Ctx) -> None:
     P = ctx.prog
     for q, what in ((f"{BASE}.Pipeline.__call__", "pipeline(...)"), (f"{BASE}._PipelineAsFunc.__call__", "Pipeline.func(...)(...)"), (f"{BASE}._PipelineAsFunc.call_full_output", "call_full_output")):
@@ -521,7 +543,7 @@ def rule_entry_captures_no_keyword(ctx: Ctx) -> None:
 
 
 def check(ctx: Ctx) -> None:
-    for rule in (rule_precedence, rule_defaults_siblings, rule_graph_edges, rule_recursion_state, rule_once, rule_routing, rule_surplus, rule_order_free, _invalidate, rule_entry, rule_entry_captures_no_keyword, rule_publish_after_complete):
+    for rule in (rule_precedence, rule_defaults_siblings, rule_graph_edges, rule_recursion_state, rule_once, rule_routing, rule_surplus, rule_order_free, _invalidate, rule_entry, rule_combinations_name_consumed_outputs, rule_entry_captures_no_keyword, rule_publish_after_complete):
         ctx.run(rule)
 
 
